@@ -299,6 +299,19 @@ pub fn run_server(ops: &[SOp], style: Style, sched: &[u16], credit: u64, newest_
             }
         }
     }
+    // accept() has returned 'no more requests': nothing will be served any more, so the last identifier the client was told
+    // must not promise more than what was handed to the application ("every request below it is still served")
+    // (judged with unlimited send credit only: there accept() writes its final GOAWAY within the poll that decides to end, so the
+    // harness - which drops a pending accept() whenever a shutdown command arrives - cannot have cancelled it half-way)
+    if matches!(obs.accept_end, Some(Ok(()))) && matches!(seg.end, rf::End::Boundary) && credit == UNLIMITED {
+        if let Some(last) = goaways.last() {
+            let line = obs.accepted.iter().max().map(|m| m + 4).unwrap_or(0);
+            if *last > line {
+                return fail(format!("accept() ended, the last GOAWAY identifier sent is {last}, but only the requests below {line} were ever handed to the application: the ids in between are neither served nor refused"));
+            }
+            ctx.class("final_goaway_checked_after_accept_ended");
+        }
+    }
     let nshut = ops.iter().filter(|o| matches!(o, SOp::Shutdown(_))).count();
     if nshut > 0 && obs.shutdowns_done == nshut && goaways.is_empty() {
         return fail("shutdown() returned but no GOAWAY frame is on the control stream".into());
